@@ -70,7 +70,7 @@ static void exec_twin(const Json &plan, RunResult &rr, Hist &h)
                 return;
         }
         // classify: which single knob is enough?
-        const char *names[3] = { "buffer addresses", "prior contents of context / level buffer / output space", "vector and mask register contents at call entry" };
+        const char *names[3] = { "buffer addresses", "prior contents of context / level buffer / output space", "vector and mask register contents at call entry and the dead stack below it" };
         const char *oracles[3] = { "C15.address_dependence", "C15.garbage_dependence", "C15.register_dependence" };
         for (int k = 0; k < 3; k++) {
                 RunResult rc;
